@@ -13,6 +13,7 @@ bug-compatible, of the string surgery in
   * `expressions/parenthesis.py` `Parenthesis.rebuild`
   * `expressions/function/call.py` `FunctionCall.rebuild`
   * `expressions/select.py`      `Select.rebuild`
+  * `expressions/unary.py`       `UnaryExpression.rebuild`
   * `expressions/function/definition.py` `FunctionDefinition.rebuild` (identifier argument: `_render_output`,
     `_format_colon_split`)
   * `expressions/with_statement.py` `WithStatement.rebuild`, `expressions/assertion.py` `Assertion.rebuild`
@@ -208,6 +209,20 @@ def lamColonPrefix (bcc : List Trivia) (bcGap : Text) (indent : Nat) : Text :=
 /-- `" "` or `"\n" * breaks_after_semicolon` -/
 def lamBreak (breaks : Nat) : Text := if breaks = 0 then [' '] else List.replicate breaks '\n'
 
+/-- `UnaryExpression.rebuild`: the layout in front of the operand (any comment forces a line break) -/
+def unLayout (between : List Trivia) (gap : Text) : Layout :=
+  let l0 := Layout.fromGap gap
+  let l1 := if !between.isEmpty then { l0 with blankLine := false } else l0
+  if hasLayoutOrComment between && !l1.onNewline then
+    { l1 with onNewline := true, blankLine := between.any (· == .emptyLine) }
+  else l1
+
+/-- the text between the operator and the operand -/
+def unSep (between : List Trivia) (gap : Text) (indent : Nat) : Text :=
+  let r := formatInterstitialTriviaWithSeparator between (unLayout between gap) indent
+    (inlineSep := if between.isEmpty then [] else [' ']) (includeIndent := false) (dropBlankIfItems := false)
+  r.1 ++ r.2
+
 def kwWith : Text := ['w', 'i', 't', 'h']
 def kwAssert : Text := ['a', 's', 's', 'e', 'r', 't']
 
@@ -330,6 +345,12 @@ def Expr.rebuildA : Expr → Bool → Nat → Bool → Text
     addTrivia before after
       (name ++ lamColonPrefix bcc bcGap indent ++ [':'] ++ lamBreak breaks ++ body.rebuildA false indent (breaks == 0))
       indent inline
+  | .un op expr gap between before after, noAfter, indent, inline =>
+    let after := if noAfter then [] else after
+    let l := unLayout between gap
+    let exprStr := if l.onNewline then expr.rebuildA false (l.indent.getD indent) false else expr.rebuildA false indent true
+    let base : Text := if op == ['+', '+'] && !inline then ['\n'] ++ spaces indent ++ op else op
+    addTrivia before after (base ++ unSep between gap indent ++ exprStr) indent inline
 /-- `[item.rebuild(indent, inline) for item in items]` -/
 def rebuildAll : List Expr → Nat → Bool → List Text
   | [], _, _ => []
@@ -632,6 +653,12 @@ def Expr.rebuildAP : Expr → Bool → Nat → Bool → List FP
     addTriviaP before after
       ([.tok name, .ws (lamColonPrefix bcc bcGap indent), .tok [':'], .ws (lamBreak breaks)] ++
         body.rebuildAP false indent (breaks == 0)) indent inline
+  | .un op expr gap between before after, noAfter, indent, inline =>
+    let after := if noAfter then [] else after
+    let l := unLayout between gap
+    let exprP := if l.onNewline then expr.rebuildAP false (l.indent.getD indent) false else expr.rebuildAP false indent true
+    let base : List FP := if op == ['+', '+'] && !inline then [.ws (['\n'] ++ spaces indent), .tok op] else [.tok op]
+    addTriviaP before after (base ++ [.ws (unSep between gap indent)] ++ exprP) indent inline
 def rebuildAllP : List Expr → Nat → Bool → List (List FP)
   | [], _, _ => []
   | e :: rest, indent, inline => e.rebuildAP false indent inline :: rebuildAllP rest indent inline
